@@ -401,6 +401,8 @@ func scriptV(acts []action) L {
 			out = append(out, L{B("write"), Bb(a.Data)})
 		case "flush":
 			out = append(out, L{B("flush")})
+		case "readfault":
+			out = append(out, L{B("readfault"), int64(a.N)})
 		}
 	}
 	return out
@@ -434,7 +436,11 @@ type respCase struct {
 	newResp                  func() proto.Message
 	msgIDs                   L
 	serverCodec, clientCodec string
+	readFault                bool // the handler reads the (faulty) request somewhere while it responds
 }
+
+// respReadFaults enables scenarios in which the request side fails while the response is under way
+var respReadFaults bool
 
 func genResp(r *rng, limits []uint32) *respCase {
 	forms := []int{formConnectPost, formConnectGet, formConnectStream, formGRPC, formGRPCWeb}
@@ -463,6 +469,11 @@ func genResp(r *rng, limits []uint32) *respCase {
 		return nil // pass-through: no response adapter
 	}
 	req := spec.build()
+	readFault := respReadFaults && formEnveloped(form) && r.chance(1, 6)
+	if readFault {
+		// after the valid request messages: an envelope with an illegal flag byte
+		req.Chunks = append(req.Chunks[:len(req.Chunks):len(req.Chunks)], []byte{7, 0, 0, 0, 1, 'x'})
+	}
 	in2, ok := creqV(req)
 	if !ok {
 		return nil
@@ -565,7 +576,7 @@ func genResp(r *rng, limits []uint32) *respCase {
 		b.DeclLower = true
 	}
 	return &respCase{cfg: cfg, form: form, target: target, streaming: streaming, req: req, in2: in2, b: b, tables: tables, lim: lim, tag: tag, seed: r.next(),
-		newResp: newResp, serverCodec: serverCodec, clientCodec: clientCodec, msgIDs: msgIDs}
+		newResp: newResp, serverCodec: serverCodec, clientCodec: clientCodec, msgIDs: msgIDs, readFault: readFault}
 }
 
 // run executes the scenario with the given write segmentation (-1: as generated)
@@ -596,6 +607,10 @@ func (rc *respCase) run(split int) (in L, out L, view clientView, res scenarioRe
 		}
 	}
 	script := b.script(r, et)
+	if rc.readFault {
+		at := (&rng{s: rc.seed}).intn(len(script) + 1)
+		script = append(append(append([]action(nil), script[:at]...), action{Op: "readfault", N: 3}), script[at:]...)
+	}
 	res = runScenario(rc.cfg, rc.req, script, nil)
 	if res.BuildErr != "" {
 		panic(res.BuildErr)
@@ -638,6 +653,9 @@ func (rc *respCase) run(split int) (in L, out L, view clientView, res scenarioRe
 		if b.Target != vanguard.ProtocolGRPC {
 			lenient = true // the end frame itself may have been cut off
 		}
+	}
+	if rc.readFault {
+		lenient = true // the outcome depends on where the request-side failure lands
 	}
 	if rc.tables.oversize || endLen > 0 {
 		lenient = true // the size limit may legitimately turn the outcome into resource_exhausted
@@ -716,6 +734,9 @@ func (rc *respCase) run(split int) (in L, out L, view clientView, res scenarioRe
 func (rc *respCase) tags(view clientView, res scenarioResult) []string {
 	pairing := fmt.Sprintf("%s<%s", formNames[rc.form], rc.target)
 	tags := []string{"respflow:" + rc.tag, "respflow.pair:" + pairing}
+	if rc.readFault {
+		tags = append(tags, "respflow:readfault")
+	}
 	if view.Framing != "" {
 		tags = append(tags, "respflow.framing:"+view.Framing)
 	}
@@ -727,6 +748,8 @@ func (rc *respCase) tags(view clientView, res scenarioResult) []string {
 
 func init() {
 	suites["respflow"] = func(c *ctx) {
+		respReadFaults = true
+		defer func() { respReadFaults = false }()
 		for i := 0; i < c.n; i++ {
 			rc := genResp(c.r, []uint32{0, 0, 4096})
 			if rc == nil {
